@@ -645,6 +645,8 @@ func runAccept(c *Ctx, ac *acceptCtx, spec acceptSpec) {
 			}
 			r.Check(used, spec.Prop+".errprop", key, p.Pos(ins.Pos()), "the verdict of an authenticating call is discarded", "error result is tested or returned")
 		})
+		// ---- noleak: no plaintext next to an error
+		runNoLeak(c, spec, f)
 		// ---- tiling: every byte of the input is consumed
 		c02Tiling(c, spec, f, input)
 		// ---- bounds
